@@ -138,6 +138,26 @@ Definition addq_at (pos : nat) (bs : list N) : list N :=
   let v := (be_value (firstn 32 (skipn pos bs)) + group_order)%N in
   if (v <? 2 ^ 256)%N && (pos + 32 <=? length bs) then firstn pos bs ++ be_bytes 32 v ++ skipn (pos + 32) bs else bs.
 
+(* compressed G1 points (curve.NewG1FromCompressed -> kilic/bls12-381 G1.FromCompressed): 48 bytes; byte 0 carries the
+   compression flag (bit 7, must be set), the infinity flag (bit 6: then the encoding must be 0xc0 followed by zeros) and
+   the sign of y (bit 5); the remaining 381 bits are x, which must be below the field modulus.  Whether x is the abscissa
+   of a point of the subgroup is the curve library's business (not modelled: a parameter of the statements). *)
+Inductive g1dec := GErr | GInf | GPoint (x : N) (sign : bool).
+Definition field_modulus : N := 4002409555221667393417789825735904156556882819939007885332058136124031650490837864442687629129015664037894272559787.
+Definition g1_flags_decode (bs : list N) : g1dec :=
+  match bs with
+  | b0 :: rest =>
+      if negb (Nat.eqb (length bs) 48) then GErr
+      else if negb (N.testbit b0 7) then GErr
+      else if N.testbit b0 6 then (if N.eqb b0 192 && forallb (N.eqb 0) rest then GInf else GErr)
+      else let x := be_value (N.land b0 31 :: rest) in
+           if (x <? field_modulus)%N then GPoint x (N.testbit b0 5) else GErr
+  | [] => GErr
+  end.
+Definition g1_ok (bs : list N) : bool := match g1_flags_decode bs with GErr => false | _ => true end.
+Definition points_ok (l : layout) : bool :=
+  g1_ok (l_aprime l) && g1_ok (l_abar l) && g1_ok (l_d l) && g1_ok (g_commit (l_vc1 l)) && g1_ok (g_commit (l_vc2 l)).
+
 (* ------------------------------------------------------------------ 2b. the Tink wrapper (bbs_verifier_factory.go) *)
 (* A keyset with ONE key of the given output prefix type.  wrappedVerifier.VerifyProof / Verify: the first 5 bytes
    select the non-raw keys with that prefix, which verify the rest; then the raw keys verify the whole input; if
